@@ -399,6 +399,8 @@ HOST_PRINTERS = {
     "ast.unparse": {
         "JoinedStr": "from 3.12 on ast.unparse writes a string literal inside a replacement field with the quote of the "
                      "enclosing f-string (PEP 701): `print(f\"{d['a']}\")` is emitted as `print(f'{d['a']}')`, a SyntaxError on 3.8-3.11",
+        "Subscript": "from 3.11 on ast.unparse prints every non-empty index tuple without its parentheses, also one that contains a "
+                     "starred element (PEP 646): `a[(*b, 1)]` is emitted as `a[*b, 1]`, a SyntaxError on 3.8-3.10",
     },
 }
 
